@@ -10,12 +10,13 @@ DRIVER = "drivers/C20.lean"
 SPEC_DRIVER = "drivers/SpecC20.lean"
 DRIVER_MODULES = ["BioCantor.Driver.Main", "BioCantor.Driver.Aggregates"]
 SPEC_DRIVER_MODULES = ["BioCantor.Driver.Main", "BioCantor.Driver.SpecAggregates"]
-MODEL_OPS = {"gene", "gmt", "gmc", "fcoll", "fmf", "acoll"}       # gacc: real objects with sequence vs the spec only
+MODEL_OPS = {"gene", "gmt", "gmc", "fcoll", "fmf", "acoll", "acollp"}       # gacc: real objects with sequence vs the spec only
 ERR_CLASS = True
 RULE = ("gene / fcoll: every list of <= K children (K=3 quick, 4 thorough) over 8 transcript (6 feature) templates "
         "with ties in CDS size and in spliced length, a zero-length child, adjacent blocks, x primary flag 0/1; "
         "gmt / gmc / fmf: the same lists x strand +/- per child (flags off); acoll: every pair of gene / "
-        "feature-collection lists with <= 2 members each over 4 spans x the 4 bound-argument shapes; gacc: accessors "
+        "feature-collection lists with <= 2 members each over 4 spans x the 4 bound-argument shapes, and with a "
+        "chromosome parent (4 parent locations x 36 member lists x 3 bound shapes); gacc: accessors "
         "of the primary member on real objects with sequence; then random larger aggregates (<= 6 children, "
         "<= 4 blocks). non-trivial = >= 2 children / members; distinct = distinct operation lines")
 EXHAUSTIVE_NOTE = ""
@@ -24,7 +25,8 @@ TRUSTED = ["Model/Aggregates.lean is hand-written; tied to gene/interval.py, gen
            "Model.unionWithSingle (Model/Algebra.lean, shared with C02) mirrors location_impl.py's union",
            "child attributes (start, end, len, cds_size, is_coding) are recomputed in Lean from the blocks sent",
            "harness/shims.py for the gene package imports"]
-ASSUMPTIONS = ["children and collections without parents (sequence accessors: one chromosome parent, op gacc)",
+ASSUMPTIONS = ["children without parents; collections with at most a sequence-less chromosome parent (op acollp); "
+               "sequence accessors: one chromosome parent with sequence (op gacc)",
                "child blocks are valid (start <= end), ascending and non-overlapping; a CDS lies within its exons",
                "variant collections are not part of this property's aggregates"]
 
@@ -65,6 +67,9 @@ def nontrivial(line, ans):
         return line if int(t[1]) >= 2 else None
     if op in ("gmt", "gmc"):
         return line if int(t[2]) >= 2 else None
+    if op == "acollp":
+        t = [t[0]] + t[3:]
+        op = "acoll"
     if op == "acoll":
         ng = int(t[3])
         nf = int(t[4 + 2 * ng])
@@ -134,6 +139,14 @@ def _exhaustive(run, kmax):
             for bs, be in (("-", "-"), ("0", "20"), ("2", "-"), ("-", "7")):
                 run.count("acoll")
                 yield f"acoll {bs} {be} {enc_blocks(gl)} {enc_blocks(fl)}"
+    # with a chromosome parent: location inside / around / beside the members, or a parent without location
+    small = [list(p) for n in range(0, 2) for p in itertools.product(SPANS, repeat=n)] + [[(3, 8), (0, 5)]]
+    for ps, pe in (("0", "50"), ("4", "6"), ("10", "20"), ("-", "-")):
+        for gl in small:
+            for fl in small:
+                for bs, be in (("-", "-"), ("1", "30"), ("2", "-")):
+                    run.count("acollp")
+                    yield f"acollp {ps} {pe} {bs} {be} {enc_blocks(gl)} {enc_blocks(fl)}"
 
 
 def _rand_blocks(rng, maxb, genome):
